@@ -50,6 +50,7 @@ class Ctx:
         self.used_others = 0
         self.inner_recs = []  # recorders attached to emitted windows / groups
         self.cb_log = []  # sequence numbers of user-callback invocations (for C03)
+        self.cb_times = []  # scheduler clock at each user-callback invocation
         self.seq = [0]
 
     # -- fault injection and call accounting -------------------------------------------------
@@ -57,6 +58,7 @@ class Ctx:
         self.calls += 1
         self.seq[0] += 1
         self.cb_log.append(self.seq[0])
+        self.cb_times.append(self.sch.clock)
         if self.k and self.calls == self.k:
             self.fired = True
             raise self.fault
@@ -150,14 +152,15 @@ class Ctx:
         return o
 
     def inner(self):
-        """factory x -> inner observable (cycled through the prepared inners)"""
-        n = [0]
-
+        """pure factory x -> inner observable, chosen by the parity of the element (pure: C04 / C44 re-run it)"""
         def f(x, *_):
             self.tick()
-            o = self._inners[n[0] % len(self._inners)]
-            n[0] += 1
-            return o
+            v = unbox(x)
+            if isinstance(v, tuple):
+                v = unbox(v[0])
+            if not isinstance(v, int):
+                v = 0
+            return self._inners[v % len(self._inners)]
         return f
 
     def inner0(self):
@@ -208,6 +211,12 @@ E = {}
 
 def entry(name, build, *tags, **kw):
     E[name] = dict(build=build, tags=set(tags), **kw)
+
+
+def obs_entry(name, raw, *tags, **kw):
+    """operators emitting observables: `raw` is the operator itself, `build` flattens it with merge_all so that every
+    emitted window / group is subscribed"""
+    E[name] = dict(build=lambda c: reactivex.compose(raw(c), ops.merge_all()), raw=raw, tags=set(tags) | {"obs"}, **kw)
 
 
 # element-wise
@@ -282,8 +291,8 @@ entry("catch_fn", lambda c: ops.catch(lambda e, s: (c.tick(), c.other())[1]), "c
 entry("on_error_resume_next", lambda c: ops.on_error_resume_next(c.other()), "other", "agnostic")
 entry("repeat", lambda c: ops.repeat(c.p), "agnostic", "resub")
 entry("retry", lambda c: ops.retry(c.p), "agnostic", "resub")
-entry("while_do", lambda c: ops.while_do(c.cond()), "cb", "agnostic", "resub")
-entry("do_while", lambda c: ops.do_while(c.cond()), "cb", "agnostic", "resub")
+entry("while_do", lambda c: ops.while_do(c.cond()), "cb", "agnostic", "resub", "nocold")
+entry("do_while", lambda c: ops.do_while(c.cond()), "cb", "agnostic", "resub", "nocold")
 # merging / switching
 entry("merge", lambda c: ops.merge(c.other()), "other", "agnostic")
 entry("merge_max", lambda c: reactivex.compose(ops.map(c.inner()), ops.merge(max_concurrent=c.m)), "cb", "inner", "agnostic")
@@ -333,19 +342,19 @@ entry("observe_on", lambda c: ops.observe_on(c.sch), "time", "agnostic")
 entry("subscribe_on", lambda c: ops.subscribe_on(c.sch), "time", "agnostic")
 # windows / buffers / groups (windows and groups are flattened so that every emitted inner is subscribed)
 entry("buffer", lambda c: ops.buffer(c.other()), "other", "agnostic")
-entry("buffer_when", lambda c: ops.buffer_when(c.inner0()), "cb", "inner", "agnostic")
+entry("buffer_when", lambda c: ops.buffer_when(c.inner0()), "cb", "inner", "agnostic", "nocold")
 entry("buffer_toggle", lambda c: ops.buffer_toggle(c.other(), c.inner()), "cb", "other", "inner", "agnostic")
 entry("buffer_with_count", lambda c: ops.buffer_with_count(c.m, c.p + 1), "agnostic")
 entry("buffer_with_time", lambda c: ops.buffer_with_time(_t(c.cm), _t(c.cp + 1)), "time", "agnostic")
 entry("buffer_with_time_or_count", lambda c: ops.buffer_with_time_or_count(_t(c.cp + 1), c.m), "time", "agnostic")
-entry("window", lambda c: reactivex.compose(ops.window(c.other()), ops.merge_all()), "other", "obs", "agnostic")
-entry("window_when", lambda c: reactivex.compose(ops.window_when(c.inner0()), ops.merge_all()), "cb", "inner", "obs", "agnostic")
-entry("window_toggle", lambda c: reactivex.compose(ops.window_toggle(c.other(), c.inner()), ops.merge_all()), "cb", "other", "inner", "obs", "agnostic")
-entry("window_with_count", lambda c: reactivex.compose(ops.window_with_count(c.m, c.p + 1), ops.merge_all()), "obs", "agnostic")
-entry("window_with_time", lambda c: reactivex.compose(ops.window_with_time(_t(c.cm), _t(c.cp + 1)), ops.merge_all()), "time", "obs", "agnostic")
-entry("window_with_time_or_count", lambda c: reactivex.compose(ops.window_with_time_or_count(_t(c.cp + 1), c.m), ops.merge_all()), "time", "obs", "agnostic")
-entry("group_by", lambda c: reactivex.compose(ops.group_by(c.key(), c.mapper()), ops.merge_all()), "cb", "obs", "inspect")
-entry("group_by_until", lambda c: reactivex.compose(ops.group_by_until(c.key(), c.mapper(), c.inner()), ops.merge_all()), "cb", "inner", "obs", "inspect")
+obs_entry("window", lambda c: ops.window(c.other()), "other", "agnostic")
+obs_entry("window_when", lambda c: ops.window_when(c.inner0()), "cb", "inner", "agnostic", "nocold")
+obs_entry("window_toggle", lambda c: ops.window_toggle(c.other(), c.inner()), "cb", "other", "inner", "agnostic")
+obs_entry("window_with_count", lambda c: ops.window_with_count(c.m, c.p + 1), "agnostic")
+obs_entry("window_with_time", lambda c: ops.window_with_time(_t(c.cm), _t(c.cp + 1)), "time", "agnostic")
+obs_entry("window_with_time_or_count", lambda c: ops.window_with_time_or_count(_t(c.cp + 1), c.m), "time", "agnostic")
+obs_entry("group_by", lambda c: ops.group_by(c.key(), c.mapper()), "cb", "inspect")
+obs_entry("group_by_until", lambda c: ops.group_by_until(c.key(), c.mapper(), c.inner()), "cb", "inner", "inspect")
 entry("partition", lambda c: (lambda s: reactivex.merge(*ops.partition(c.pred())(s))), "cb", "obs", "inspect")
 entry("partition_indexed", lambda c: (lambda s: reactivex.merge(*ops.partition_indexed(c.pred_i())(s))), "cb", "obs", "inspect")
 # multicasting
